@@ -7,7 +7,7 @@
 (*         of the re-serialised parsed message                               *)
 (*   ti    w -> TypeInfo::try_from(w), as_bytes in both orders, and          *)
 (*         try_from of the re-encoded word                                   *)
-EXTENDS DltCodes, TLC, Json, IOUtils
+EXTENDS DltCodes, DltMisc, TLC, Json, IOUtils
 Rec == ndJsonDeserialize(IOEnv.TRACE)
 VARIABLES l, bad
 HtypOk(e) == LET d == HtypDec(e.b)  r == e.res IN
@@ -24,7 +24,15 @@ TiOk(e) == LET r == e.res IN
        /\ r.re.v = "ok" /\ r.re.desc = r.desc                    \* the encoding decodes to the same description
        /\ \A k \in 0..31 : TiBit(e.w, k) # TiBit(r.be, k) => k \in UnusedBits(r.desc.kind)      \* differs only in unused bits
        /\ r.le = Rev(r.be)                                       \* same in both byte orders up to byte reversal
-Matches(e) == CASE e.op = "htyp" -> HtypOk(e) [] e.op = "msin" -> MsinOk(e) [] e.op = "ti" -> TiOk(e) [] OTHER -> FALSE
+\* ---- beyond the listed properties (./check extras)
+SvcOk(e) == e.res = ServiceName(e.id)
+CtlOk(e) == LET c == ControlOf(e.n) IN e.res.kind = c[1] /\ e.res.value = c[2] /\ e.res.back = e.n
+WidthOk(e) == e.res = TypeWidth(e.t.kind, e.t.w)
+ArgCountOk(e) == e.res = ArgCount(e.p)
+LogLevelOk(e) == e.res = LogCrateLevel(e.mtin)
+Matches(e) == CASE e.op = "htyp" -> HtypOk(e) [] e.op = "msin" -> MsinOk(e) [] e.op = "ti" -> TiOk(e)
+                [] e.op = "svc" -> SvcOk(e) [] e.op = "ctl" -> CtlOk(e) [] e.op = "width" -> WidthOk(e) [] e.op = "argcount" -> ArgCountOk(e) [] e.op = "loglevel" -> LogLevelOk(e)
+                [] OTHER -> FALSE
 Init == l = 1 /\ bad = <<>>
 Next == l <= Len(Rec) /\ l' = l + 1 /\ bad' = IF Matches(Rec[l]) THEN bad ELSE Append(bad, l)
 Spec == Init /\ [][Next]_<<l, bad>>
